@@ -1496,7 +1496,9 @@ func (w *envelopingWriter) Close() error {
 		}
 		defer w.rw.op.bufferPool.Put(buf)
 	}
-	if w.remainingBytes == -1 && w.mustReleaseCurrent && w.err == nil {
+	if w.remainingBytes == -1 && w.mustReleaseCurrent && w.err == nil && w.rw.err == nil {
+		// (If the response has already ended, e.g. with an error reported by
+		// the request reader, what was collected must not follow the end.)
 		length := buf.Len()
 		if limit := int(w.rw.op.methodConf.maxMsgBufferBytes); length > limit {
 			w.err = bufferLimitError(int64(limit))
